@@ -219,6 +219,9 @@ package goldilocks
 //@ def qe_add(a, b) = tuple((a[0] + b[0]) % P, (a[1] + b[1]) % P)
 //@ def qe_sub(a, b) = tuple((a[0] - b[0]) % P, (a[1] - b[1]) % P)
 //@ def qe_mul(a, b) = tuple((a[0]*b[0] + 7*a[1]*b[1]) % P, (a[0]*b[1] + a[1]*b[0]) % P)
+//@ opaque def qe_mulo0(a0, a1, b0, b1) = (a0*b0 + 7*a1*b1) % P
+//@ opaque def qe_mulo1(a0, a1, b0, b1) = (a0*b1 + a1*b0) % P
+//@ def qe_mulo(a, b) = tuple(qe_mulo0(a[0], a[1], b[0], b[1]), qe_mulo1(a[0], a[1], b[0], b[1]))
 //@ def qe_muladd(a, b, c) = tuple((a[0]*b[0] + 7*a[1]*b[1] + c[0]) % P, (a[0]*b[1] + a[1]*b[0] + c[1]) % P)
 //@ def qe_submul(a, b, c) = tuple(((a[0]-b[0])*c[0] + 7*(a[1]-b[1])*c[1]) % P, ((a[0]-b[0])*c[1] + (a[1]-b[1])*c[0]) % P)
 //@ def qe_smul(a, s) = tuple((a[0]*s) % P, (a[1]*s) % P)
@@ -262,8 +265,10 @@ package goldilocks
 //@   props C05 C08
 //@   circuit
 //@   requires chipok(p) && canonQE(a) && canonQE(b)
+//@   reveal qe_mulo0 qe_mulo1
 //@   ensures canonQE(res)
 //@   ensures res == qe_mul(a, b)
+//@   ensures res == qe_mulo(a, b)
 
 //@ func (p *Chip) MulAddExtension(a QuadraticExtensionVariable, b QuadraticExtensionVariable, c QuadraticExtensionVariable) (res QuadraticExtensionVariable)
 //@   props C05 C08
@@ -392,16 +397,23 @@ package goldilocks
 //@        0 <= acc[0].Limb && acc[0].Limb <= startingAcc[0].Limb + i*8*P*P && 0 <= acc[1].Limb && acc[1].Limb <= startingAcc[1].Limb + i*2*P*P
 
 // Exponentiation by squaring, exactly plonky2's exp_u64: for j in 0..bits(e): if bit j then product *= current; current = current^2.
-//@ recdef qe_pow_sm(cur QE, prod QE, e int, j int, n int) QE = ite(j >= n, prod, qe_pow_sm(qe_mul(cur, cur), ite((e / pow2(j)) % 2 == 1, qe_mul(prod, cur), prod), e, j + 1, n))
+// The field multiplication inside the recursion is the opaque qe_mulo (= qe_mul, revealed only in MulExtension and in the lemma).
+//@ recdef qe_pow_sm(cur QE, prod QE, e int, j int, n int) QE = ite(j >= n, prod, qe_pow_sm(qe_mulo(cur, cur), ite((e / pow2(j)) % 2 == 1, qe_mulo(prod, cur), prod), e, j + 1, n))
+
+//@ lemma qe_mulo_one(a0, a1) = implies(0 <= a0 && a0 < P && 0 <= a1 && a1 < P, qe_mulo0(1, 0, a0, a1) == a0 && qe_mulo1(1, 0, a0, a1) == a1)
+//@   props C05 C08
+//@   reveal qe_mulo0 qe_mulo1
 
 //@ func (p *Chip) ExpExtension(a QuadraticExtensionVariable, exponent uint64) (res QuadraticExtensionVariable)
 //@   props C05 C08
 //@   circuit
 //@   requires chipok(p) && canonQE(a)
+//@   use qe_mulo_one(a[0].Limb, a[1].Limb)
+//@   use qe_mulo_one(qe_mulo0(a[0].Limb, a[1].Limb, a[0].Limb, a[1].Limb), qe_mulo1(a[0].Limb, a[1].Limb, a[0].Limb, a[1].Limb))
 //@   ensures canonQE(res)
 //@   ensures res == qe_pow_sm(a, tuple(1, 0), exponent, 0, bitlen(exponent))
 //@   loop 0 invariant 0 <= i && i <= bitlen(exponent) && canonQE(current) && canonQE(product) &&
-//@        qe_pow_sm(ite(i == 0, current, qe_mul(current, current)), product, exponent, i, bitlen(exponent)) == qe_pow_sm(a, tuple(1, 0), exponent, 0, bitlen(exponent))
+//@        qe_pow_sm(ite(i == 0, current, qe_mulo(current, current)), product, exponent, i, bitlen(exponent)) == qe_pow_sm(a, tuple(1, 0), exponent, 0, bitlen(exponent))
 
 // ------------------------------------------------------------------ degree-2 algebra over GF(p^2): pairs (u0, u1) with Y^2 = 7
 //@ def qea_add(a, b) = tuple(qe_add(a[0], b[0]), qe_add(a[1], b[1]))
